@@ -5,7 +5,7 @@
 //! decoded as T.  Under Kani every panic (index, unwrap, assert!, debug_assert! — Kani builds the
 //! dev profile) is a failed property; afterwards the ledger must be balanced.
 use crate::env;
-use crate::util_q::*;
+use crate::util::*;
 use crate::{cover, harnesses};
 #[cfg(not(kani))]
 use crate::kani;
@@ -26,8 +26,7 @@ pub struct Att {
 /// message with `len<=NB` symbolic bytes, `nch<=2` socket attachments, `nreg<=2` regions
 pub fn garbage_message(nch: usize, nreg: usize) -> (OpaqueIpcMessage, Att) {
     let bytes: [u8; NB] = kani::any();
-    let len: usize = kani::any();
-    kani::assume(len <= NB);
+    let len: usize = any_usize_in(0, NB);
     let mut att = Att { ch_obj: [-1; 2], ch_peer: [-1; 2], nch, nreg };
     let mut ch = Vec::new();
     let mut i = 0;
